@@ -145,3 +145,301 @@ Proof.
     end;
     reflexivity.
 Qed.
+
+(* ================================================================================================ *)
+(* 2. literals                                                                                        *)
+(* ================================================================================================ *)
+Definition dg (d : Z) : Z := 48 + d.
+(* what may follow a number or a name: nothing, or a character that is not a letter, digit or '_' *)
+Definition nw (r : list Z) : Prop := match r with [] => True | c :: _ => is_word_ch c = false end.
+
+Lemma nw_facts c : is_word_ch c = false ->
+  is_digit c = false /\ is_oct_digit c = false /\ hex_val c = None /\ c <> 120 /\ c <> 111 /\ c <> 48.
+Proof.
+  unfold is_word_ch, is_upper, is_lower, is_digit, is_oct_digit, hex_val, is_digit. intros H.
+  repeat split; try lia.
+  replace ((48 <=? c) && (c <=? 57)) with false by lia.
+  replace ((97 <=? c) && (c <=? 102)) with false by lia.
+  replace ((65 <=? c) && (c <=? 70)) with false by lia. reflexivity.
+Qed.
+
+Lemma take_dec_digits ds : forall acc r,
+  forallb (in_range 0 9) ds = true -> nw r ->
+  take_dec acc (map (fun d => 48 + d) ds ++ r) = (value_in 10 acc ds, r).
+Proof.
+  induction ds as [|d ds IH]; intros acc r Hd Hr.
+  - cbn [map app value_in]. destruct r as [|c r]; [reflexivity|].
+    cbn [take_dec]. cbn [nw] in Hr. apply nw_facts in Hr. destruct Hr as (H & _). rewrite H. reflexivity.
+  - cbn [forallb] in Hd. apply andb_prop in Hd. destruct Hd as [Hd Hds].
+    cbn [map app take_dec value_in]. unfold in_range in Hd.
+    replace (is_digit (48 + d)) with true by (unfold is_digit; lia).
+    replace (acc * 10 + (48 + d - 48)) with (acc * 10 + d) by lia.
+    apply IH; assumption.
+Qed.
+
+(* the code's "octal" digits are 0..8 *)
+Lemma take_oct_digits ds : forall acc r,
+  forallb (in_range 0 8) ds = true -> nw r ->
+  take_oct acc (map (fun d => 48 + d) ds ++ r) = (value_in 8 acc ds, r).
+Proof.
+  induction ds as [|d ds IH]; intros acc r Hd Hr.
+  - cbn [map app value_in]. destruct r as [|c r]; [reflexivity|].
+    cbn [take_oct]. cbn [nw] in Hr. apply nw_facts in Hr. destruct Hr as (_ & H & _). rewrite H. reflexivity.
+  - cbn [forallb] in Hd. apply andb_prop in Hd. destruct Hd as [Hd Hds].
+    cbn [map app take_oct value_in]. unfold in_range in Hd.
+    replace (is_oct_digit (48 + d)) with true by (unfold is_oct_digit; lia).
+    replace (acc * 8 + (48 + d - 48)) with (acc * 8 + d) by lia.
+    apply IH; assumption.
+Qed.
+
+Lemma hex_val_char d : in_range 0 15 (fst d) = true -> hex_val (hex_char d) = Some (fst d).
+Proof.
+  unfold in_range, hex_char, hex_val, is_digit. intros H. destruct d as [v u]. cbn [fst snd] in *.
+  destruct (v <? 10) eqn:E.
+  - replace ((48 <=? 48 + v) && (48 + v <=? 57)) with true by lia. f_equal. lia.
+  - destruct u.
+    + replace ((48 <=? 65 + (v - 10)) && (65 + (v - 10) <=? 57)) with false by lia.
+      replace ((97 <=? 65 + (v - 10)) && (65 + (v - 10) <=? 102)) with false by lia.
+      replace ((65 <=? 65 + (v - 10)) && (65 + (v - 10) <=? 70)) with true by lia. f_equal. lia.
+    + replace ((48 <=? 97 + (v - 10)) && (97 + (v - 10) <=? 57)) with false by lia.
+      replace ((97 <=? 97 + (v - 10)) && (97 + (v - 10) <=? 102)) with true by lia. f_equal. lia.
+Qed.
+
+Lemma take_hex_digits ds : forall acc r,
+  forallb (fun d => in_range 0 15 (fst d)) ds = true -> nw r ->
+  take_hex acc (map hex_char ds ++ r) = (value_in 16 acc (map fst ds), r).
+Proof.
+  induction ds as [|d ds IH]; intros acc r Hd Hr.
+  - cbn [map app value_in]. destruct r as [|c r]; [reflexivity|].
+    cbn [take_hex]. cbn [nw] in Hr. apply nw_facts in Hr. destruct Hr as (_ & _ & H & _). rewrite H. reflexivity.
+  - cbn [forallb] in Hd. apply andb_prop in Hd. destruct Hd as [Hd Hds].
+    cbn [map app take_hex value_in]. rewrite hex_val_char by assumption.
+    apply IH; assumption.
+Qed.
+
+Lemma hex_char_facts d : in_range 0 15 (fst d) = true ->
+  hex_char d <> 120 /\ hex_char d <> 111 /\ hex_char d <> 36 /\ hex_char d <> 45 /\ is_word_ch (hex_char d) = true.
+Proof.
+  unfold in_range, hex_char, is_word_ch, is_upper, is_lower, is_digit. destruct d as [v u]. cbn [fst snd].
+  intros H. destruct (v <? 10) eqn:E; [|destruct u]; lia.
+Qed.
+
+(* "0x" / "0o" is not seen at the start of a digit string followed by a non-word character *)
+Lemma no_zero_prefix k cs r :
+  (forall c, In c cs -> c <> k) -> (forall c, is_word_ch c = false -> c <> k) -> nw r -> k <> 48 ->
+  prefixb [48; k] (cs ++ r) = false \/ exists c2 cs2, cs = 48 :: c2 :: cs2 /\ False.
+Proof.
+  intros Hcs Hk Hr Hk0. left.
+  destruct cs as [|c1 cs]; cbn [app].
+  - destruct r as [|c r]; [reflexivity|]. cbn [prefixb]. cbn [nw] in Hr.
+    destruct (nw_facts c Hr) as (_ & _ & _ & _ & _ & H48). replace (48 =? c) with false by lia. reflexivity.
+  - cbn [prefixb]. destruct (48 =? c1); [|reflexivity]. cbn [andb].
+    destruct cs as [|c2 cs]; cbn [app].
+    + destruct r as [|c r]; [reflexivity|]. cbn [prefixb nw] in *. specialize (Hk c Hr).
+      replace (k =? c) with false by lia. reflexivity.
+    + cbn [prefixb]. assert (c2 <> k) by (apply Hcs; right; left; reflexivity).
+      replace (k =? c2) with false by lia. reflexivity.
+Qed.
+
+Lemma nw_not_x c : is_word_ch c = false -> c <> 120.
+Proof. intros H. apply nw_facts in H. lia. Qed.
+Lemma nw_not_o c : is_word_ch c = false -> c <> 111.
+Proof. intros H. apply nw_facts in H. lia. Qed.
+
+Lemma eq_char_cons c r k : eq_char (c :: r) k = (c =? k).
+Proof. reflexivity. Qed.
+
+Lemma get_int_lit n r def : lit_ok n = true -> nw r -> get_int def (lit_text n ++ r) = (lit_value n, r).
+Proof.
+  intros Hok Hr. destruct n as [ds | dollar ds | ds]; cbn [lit_ok] in Hok; apply andb_prop in Hok; destruct Hok as [Hne Hd].
+  - (* decimal *)
+    destruct ds as [|d ds]; [discriminate|]. clear Hne. cbn [lit_text lit_value].
+    set (cs := map (fun d0 => 48 + d0) (d :: ds)).
+    assert (Hin : forall c, In c cs -> 48 <= c <= 57).
+    { intros c Hc. unfold cs in Hc. apply in_map_iff in Hc. destruct Hc as (x & <- & Hx).
+      rewrite forallb_forall in Hd. specialize (Hd x Hx). unfold in_range in Hd. lia. }
+    assert (Hx : prefixb [48; 120] (cs ++ r) = false).
+    { destruct (no_zero_prefix 120 cs r) as [H | (? & ? & _ & [])]; auto; try lia.
+      - intros c Hc. apply Hin in Hc. lia. - exact nw_not_x. }
+    assert (Ho : prefixb [48; 111] (cs ++ r) = false).
+    { destruct (no_zero_prefix 111 cs r) as [H | (? & ? & _ & [])]; auto; try lia.
+      - intros c Hc. apply Hin in Hc. lia. - exact nw_not_o. }
+    unfold get_int. unfold c_0, c_x, c_o, c_MINUS, c_DOLLAR.
+    assert (Hhd : exists c0 t0, cs ++ r = c0 :: t0 /\ 48 <= c0 <= 57).
+    { unfold cs. cbn [map app]. eexists. eexists. split; [reflexivity|].
+      cbn [forallb] in Hd. apply andb_prop in Hd. unfold in_range in Hd. lia. }
+    destruct Hhd as (c0 & t0 & E0 & R0).
+    replace (eq_char (cs ++ r) 45) with false by (rewrite E0; cbn [eq_char]; lia).
+    rewrite Hx. replace (eq_char (cs ++ r) 36) with false by (rewrite E0; cbn [eq_char]; lia).
+    cbn [orb]. rewrite Ho.
+    replace (is_numeric (cs ++ r)) with true by (rewrite E0; cbn [is_numeric]; unfold is_digit; lia).
+    cbn [negb]. unfold cs. rewrite take_dec_digits by assumption. f_equal. lia.
+  - (* hex *)
+    destruct ds as [|d ds]; [discriminate|]. clear Hne. cbn [lit_value].
+    pose proof Hd as Hd'. cbn [forallb] in Hd'. apply andb_prop in Hd'. destruct Hd' as [Hd1 _].
+    destruct (hex_char_facts d Hd1) as (Nx & No & Nd & Nm & _).
+    assert (Hhv : hex_val (hex_char d) = Some (fst d)) by (apply hex_val_char; assumption).
+    assert (Hx0 : prefixb [48; 120] (map hex_char (d :: ds) ++ r) = false).
+    { destruct (no_zero_prefix 120 (map hex_char (d :: ds)) r) as [H | (? & ? & _ & [])]; auto; try lia.
+      - intros c Hc. apply in_map_iff in Hc. destruct Hc as (x & <- & Hxin).
+        rewrite forallb_forall in Hd. specialize (Hd x Hxin). apply hex_char_facts in Hd. lia.
+      - exact nw_not_x. }
+    destruct dollar; cbn [lit_text app].
+    + (* $.. *)
+      unfold get_int. unfold c_0, c_x, c_o, c_MINUS, c_DOLLAR. cbn [eq_char prefixb].
+      replace (36 =? 45) with false by reflexivity. replace (48 =? 36) with false by reflexivity.
+      replace (36 =? 36) with true by reflexivity. cbn [andb orb].
+      cbv beta iota zeta.
+      unfold get_hex. unfold c_0, c_x, c_MINUS, c_DOLLAR.
+      do 3 (rewrite ?eq_char_cons; change (36 =? 45) with false; change (36 =? 36) with true;
+            cbv beta iota zeta; cbn [tl]).
+      rewrite Hx0. cbn [map app peek0]. rewrite Hhv.
+      change (hex_char d :: map hex_char ds ++ r) with (map hex_char (d :: ds) ++ r).
+      rewrite take_hex_digits by assumption. cbv beta iota zeta. f_equal. cbn [map]. lia.
+    + (* 0x.. *)
+      unfold get_int. unfold c_0, c_x, c_o, c_MINUS, c_DOLLAR. cbn [eq_char prefixb].
+      replace (48 =? 45) with false by reflexivity. replace (48 =? 48) with true by reflexivity.
+      replace (120 =? 120) with true by reflexivity. cbn [andb orb].
+      cbv beta iota zeta.
+      unfold get_hex. unfold c_0, c_x, c_MINUS, c_DOLLAR.
+      do 3 (rewrite ?eq_char_cons; change (48 =? 45) with false; change (48 =? 36) with false;
+            cbv beta iota zeta; cbn [tl]).
+      cbn [prefixb]. change (48 =? 48) with true. change (120 =? 120) with true.
+      cbn [andb]. cbv beta iota zeta. cbn [skipn map app peek0]. rewrite Hhv.
+      change (hex_char d :: map hex_char ds ++ r) with (map hex_char (d :: ds) ++ r).
+      rewrite take_hex_digits by assumption. cbv beta iota zeta. f_equal. cbn [map]. lia.
+  - (* octal *)
+    destruct ds as [|d ds]; [discriminate|]. clear Hne. cbn [lit_text lit_value app].
+    assert (Hd8 : forallb (in_range 0 8) (d :: ds) = true).
+    { rewrite forallb_forall in *. intros x Hx. specialize (Hd x Hx). unfold in_range in *. lia. }
+    pose proof Hd as Hd'. cbn [forallb] in Hd'. apply andb_prop in Hd'. destruct Hd' as [Hd1 _]. unfold in_range in Hd1.
+    unfold get_int. unfold c_0, c_x, c_o, c_MINUS, c_DOLLAR. cbn [eq_char prefixb].
+    do 3 (rewrite ?eq_char_cons; change (48 =? 45) with false; change (48 =? 36) with false; cbv beta iota zeta).
+    cbn [prefixb].
+    change (48 =? 48) with true. change (120 =? 111) with false. change (111 =? 111) with true.
+    cbn [andb orb skipn map app peek0].
+    replace (is_oct_digit (48 + d)) with true by (unfold is_oct_digit; lia). cbn [andb negb].
+    change ((48 + d) :: map (fun d0 => 48 + d0) ds ++ r) with (map (fun d0 => 48 + d0) (d :: ds) ++ r).
+    rewrite take_oct_digits by assumption. cbv beta iota zeta. f_equal. lia.
+Qed.
+
+(* what the code does with the digit 8 after "0o": it is accepted with the value 8 *)
+Lemma get_int_octal_8 ds r def : ds <> [] -> forallb (in_range 0 8) ds = true -> nw r ->
+  get_int def (48 :: 111 :: map (fun d => 48 + d) ds ++ r) = (value_in 8 0 ds, r).
+Proof.
+  intros Hne Hd Hr. destruct ds as [|d ds]; [congruence|].
+  pose proof Hd as Hd'. cbn [forallb] in Hd'. apply andb_prop in Hd'. destruct Hd' as [Hd1 _]. unfold in_range in Hd1.
+  unfold get_int. unfold c_0, c_x, c_o, c_MINUS, c_DOLLAR. cbn [eq_char prefixb].
+  do 3 (rewrite ?eq_char_cons; change (48 =? 45) with false; change (48 =? 36) with false; cbv beta iota zeta).
+  cbn [prefixb].
+  change (48 =? 48) with true. change (120 =? 111) with false. change (111 =? 111) with true.
+  cbn [andb orb skipn map app peek0].
+  replace (is_oct_digit (48 + d)) with true by (unfold is_oct_digit; lia). cbn [andb negb].
+  change ((48 + d) :: map (fun d0 => 48 + d0) ds ++ r) with (map (fun d0 => 48 + d0) (d :: ds) ++ r).
+  rewrite take_oct_digits by assumption. cbv beta iota zeta. f_equal. lia.
+Qed.
+
+(* ================================================================================================ *)
+(* 3. names and string constants                                                                      *)
+(* ================================================================================================ *)
+Lemma is_word_char_ch c : is_word_char c = is_word_ch c.
+Proof. unfold is_word_char, is_letter, in_range, is_word_ch, is_upper, is_lower, is_digit. lia. Qed.
+
+Lemma take_word_name x : forall r, forallb is_word_char x = true -> nw r -> take_word (x ++ r) = (x, r).
+Proof.
+  induction x as [|c x IH]; intros r Hx Hr.
+  - cbn [app]. destruct r as [|c r]; [reflexivity|]. cbn [take_word nw] in *. rewrite Hr. reflexivity.
+  - cbn [forallb] in Hx. apply andb_prop in Hx. destruct Hx as [Hc Hx].
+    cbn [app take_word]. rewrite is_word_char_ch in Hc. rewrite Hc. rewrite IH by assumption. reflexivity.
+Qed.
+
+Lemma name_ok_inv x : name_ok x = true ->
+  exists c x', x = c :: x' /\ is_letter c = true /\ forallb is_word_char x = true.
+Proof.
+  destruct x as [|c x']; [discriminate|]. cbn [name_ok]. intros H. apply andb_prop in H. destruct H as [H1 H2].
+  exists c, x'. repeat split; try assumption. cbn [forallb]. rewrite H2. unfold is_word_char. rewrite H1. reflexivity.
+Qed.
+
+Lemma get_word_name x r : name_ok x = true -> nw r -> get_word (x ++ r) = (x, r).
+Proof.
+  intros Hx Hr. destruct (name_ok_inv x Hx) as (c & x' & -> & Hc & Hall).
+  unfold get_word. cbn [app eq_char].
+  replace (c =? 35) with false by (unfold is_letter, in_range in Hc; lia).
+  change (c :: x' ++ r) with ((c :: x') ++ r). apply take_word_name; assumption.
+Qed.
+
+Lemma nest_str s : forall r, str_ok s = true -> nest_loop 123 125 1 (s ++ 125 :: r) = (s, r).
+Proof.
+  induction s as [|x s IH]; intros r H.
+  - reflexivity.
+  - cbn [str_ok forallb] in H. apply andb_prop in H. destruct H as [Hx Hs].
+    cbn [app nest_loop].
+    replace (x =? 123) with false by lia. replace (x =? 125) with false by lia.
+    rewrite IH by assumption. reflexivity.
+Qed.
+
+(* ================================================================================================ *)
+(* 4. the reader as a big-step relation with explicit fuel bounds                                     *)
+(* ================================================================================================ *)
+Section Reader.
+Variable tb : Z.
+Variable lexvars : list (list Z).
+Notation rv := (read_value tb lexvars).
+Notation rcp := (read_calc_priority tb lexvars).
+Notation cloop := (calc_loop tb lexvars).
+
+Definition rv_ok (n : nat) (s : list Z) (k : tok) (s' : list Z) : Prop :=
+  forall f, (n <= f)%nat -> rv f s = Ok (Some k, s').
+Definition rcp_ok (n : nat) (M : Z) (s : list Z) (k : tok) (s' : list Z) : Prop :=
+  forall f, (n <= f)%nat -> rcp f M s = Ok (Some k, s').
+Definition loop_ok (n : nat) (M : Z) (left : tok) (s : list Z) (k : tok) (s' : list Z) : Prop :=
+  forall f, (n <= f)%nat -> cloop f M left s = Ok (k, s').
+
+Lemma rcp_intro n m M s k s1 k' s2 :
+  rv_ok n s k s1 -> loop_ok m M k s1 k' s2 -> rcp_ok (S (n + m)) M s k' s2.
+Proof.
+  intros Hv Hl f Hf. destruct f as [|f]; [lia|].
+  cbn [read_calc_priority]. rewrite Hv by lia. cbn [bind]. rewrite Hl by lia. reflexivity.
+Qed.
+
+(* where the loop stops: end of input, no operator, or an operator looser than max_priority *)
+Definition stops (M : Z) (r : list Z) : Prop :=
+  r = [] \/ read_operator r = None \/ exists c p s1, read_operator r = Some (c, p, s1) /\ M < p.
+Definition rest_of (r : list Z) : list Z :=
+  match r with
+  | [] => []
+  | _ => match read_operator r with None => sksp r | Some _ => r end
+  end.
+
+Lemma loop_stop M left r : stops M r -> loop_ok 1 M left r left (rest_of r).
+Proof.
+  intros H f Hf. destruct f as [|f]; [lia|]. cbn [calc_loop]. unfold rest_of.
+  destruct r as [|c r]; [reflexivity|].
+  destruct H as [H | [H | (c1 & p & s1 & H & Hp)]]; [discriminate| |]; rewrite H; [reflexivity|].
+  replace (p >? M) with true by lia. reflexivity.
+Qed.
+
+Lemma loop_step n m M left s c p s1 kr s2 k' s3 :
+  s <> [] -> read_operator s = Some (c, p, s1) -> p <= M ->
+  rcp_ok n (p - 1) s1 kr s2 -> loop_ok m M (TCalc c p left kr) s2 k' s3 ->
+  loop_ok (S (n + m)) M left s k' s3.
+Proof.
+  intros Hne Hop Hp Hr Hl f Hf. destruct f as [|f]; [lia|]. cbn [calc_loop].
+  destruct s as [|c0 s]; [congruence|]. rewrite Hop.
+  replace (p >? M) with false by lia. rewrite Hr by lia. cbn [bind]. apply Hl. lia.
+Qed.
+
+Lemma read_operator_sksp r : read_operator (sksp r) = read_operator r.
+Proof. unfold read_operator. rewrite sksp_idem. reflexivity. Qed.
+
+(* the loop behaves the same on r and on what an inner reader leaves of r *)
+Lemma loop_rest_of n M left r k' s' : loop_ok n M left r k' s' -> loop_ok (S n) M left (rest_of r) k' s'.
+Proof.
+  intros H. unfold rest_of. destruct r as [|c r]; [intros f Hf; apply H; lia|].
+  destruct (read_operator (c :: r)) eqn:E; [intros f Hf; apply H; lia|].
+  intros f Hf. destruct f as [|f]; [lia|].
+  specialize (H (S f) ltac:(lia)). cbn [calc_loop] in H. rewrite E in H.
+  cbn [calc_loop]. destruct (sksp (c :: r)) as [|c' r'] eqn:Es; [exact H|].
+  rewrite <- Es in H |- *. rewrite read_operator_sksp, E, sksp_idem. exact H.
+Qed.
+
